@@ -100,7 +100,7 @@ FailDecode(ty, in, dest, obs) ==
   If(obs.alloc <= AllocBound(Len(in)), "dec_alloc") \cup
   If(obs.us <= 2000000, "dec_time") \cup
   ( IF r.st = "ok" THEN
-         IF MsgDepth(Sub(in, 1, r.n)) <= AlwaysAcceptedDepth THEN
+         IF r.d <= AlwaysAcceptedDepth THEN
               IF obs.out # "ok" THEN {"dec_accept"}
               ELSE If(obs.n = r.n, "dec_n") \cup
                    If(r.dup \/ SameStruct(ty, obs.val, r.v), "dec_val")
